@@ -348,6 +348,60 @@ end Re
 def isPseudo (v : Bytes) : Bool :=
   (v.count 45 ≥ Gen.Proxy.pseudoMinDashes) && semverIsValid v && Re.matches Gen.Proxy.pseudoRe v
 
+/-! #### reference: what a pseudo-version is, written without the regular expression
+
+The three forms of cmd/go (and golang.org/x/mod/module.IsPseudoVersion, for build metadata that is
+empty or `+incompatible`):
+
+    vX.0.0-yyyymmddhhmmss-abcdefabcdef
+    vX.Y.Z-pre.0.yyyymmddhhmmss-abcdefabcdef      (pre: any bytes except '+')
+    vX.Y.(Z+1)-0.yyyymmddhhmmss-abcdefabcdef
+
+This is the *meaning* `isPseudo` is held against (GIV.Props.C20 `isPseudo_spec_partial`, and the
+harness compares it with x/mod on every run); it does not use `Gen.Proxy.pseudoRe`. -/
+
+/-- `yyyymmddhhmmss-<alphanumeric hash>` optionally followed by `+incompatible`, to the end -/
+def isPseudoTail (t : Bytes) : Bool :=
+  let d := t.take 14
+  let r := t.drop 14
+  d.length = 14 && d.all isDigit && r.head? = some 45 &&
+  (let h := (r.drop 1).takeWhile (fun c => isDigit c || isUpper c || isLower c)
+   let suf := (r.drop 1).drop h.length
+   !h.isEmpty && (suf.isEmpty || suf = lit "+incompatible"))
+
+/-- the optional `pre.` group: empty, or ending in '.' and free of '+' -/
+def pseudoPreOK (pre : Bytes) : Bool := pre.isEmpty || (pre.getLast? = some 46 && !pre.contains 43)
+
+/-- is there a split `r = pre ++ "0." ++ tail` (with `acc` already consumed into `pre`)? -/
+def pseudoSplit (acc : Bytes) : Bytes → Bool
+  | [] => false
+  | c :: rest =>
+    (pseudoPreOK acc && hasPrefix [48, 46] (c :: rest) && isPseudoTail ((c :: rest).drop 2)) ||
+      pseudoSplit (acc ++ [c]) rest
+
+/-- a non-empty run of digits followed by the byte `sep`: the remainder -/
+def digitsThen (sep : UInt8) (s : Bytes) : Option Bytes :=
+  let d := s.takeWhile isDigit
+  if !d.isEmpty && (s.drop d.length).head? = some sep then some (s.drop (d.length + 1)) else none
+
+def pseudoShape (v : Bytes) : Bool :=
+  match v with
+  | 118 :: v1 =>
+    match digitsThen 46 v1 with
+    | none => false
+    | some r =>
+      (hasPrefix (lit "0.0-") r && isPseudoTail (r.drop 4)) ||
+      (match digitsThen 46 r with
+       | none => false
+       | some r2 =>
+         match digitsThen 45 r2 with
+         | none => false
+         | some r3 => pseudoSplit [] r3)
+  | _ => false
+
+/-- reference definition of "pseudo-version" -/
+def isPseudoRef (v : Bytes) : Bool := (v.count 45 ≥ 2) && semverIsValid v && pseudoShape v
+
 /-- `allHex` -/
 def allHex (rev : Bytes) : Bool := rev.all fun c => Gen.Proxy.hexRanges.any fun r => r.1 ≤ c && c ≤ r.2
 
